@@ -105,28 +105,20 @@ def _check_case(repo, case: S.SimCase, rank, fast: bool = False):
                               f"fills are not in path order for {desc}: {a[0]} at path position {a[1]} before {b[0]} at {b[1]}"))
                 break
         # fill price = own price = published partial close = current price at the hook
-        cur_open = s["o"]
         for f in fills:
             cp, own = f[2], f[3]
-            # (a fill exactly at the open of the remaining candle publishes that whole remaining
-            #  candle: split_candle's documented behaviour for price == open)
-            at_open = _val(own, s) == cur_open
-            cur_open = _val(own, s)
-            if at_open:
-                continue
+            # (also for a fill exactly at the open of the remaining candle: split_candle returns the whole remaining candle for it,
+            #  whose close is still in the future - the simulator must not take the current price from it)
             if not (isinstance(cp, R) and _val(cp, s) == _val(own, s)):
                 viols.append(("C02-R4", f"match-loop|fillprice|{desc}",
                               f"order {f[1]} is filled with current price {cp!r}, not at its own price {own!r} for {desc}"))
         # ordering of events: partial candle published before the execution it belongs to
         last_partial = None
-        cur_open = s["o"]
         for ev in out.events:
             if ev[0] == "partial":
                 last_partial = ev[1]
             if ev[0] == "fill":
-                at_open = _val(ev[3], s) == cur_open
-                cur_open = _val(ev[3], s)
-                if last_partial is None or (not at_open and _val(last_partial[2], s) != _val(ev[3], s)):
+                if last_partial is None or _val(last_partial[2], s) != _val(ev[3], s):
                     viols.append(("C08-R3", f"match-loop|partial|{desc}",
                                   f"partial candle published before fill of {ev[1]} does not close at the fill price for {desc}"))
                 last_partial = None
